@@ -1453,7 +1453,9 @@ func (m *StateMachine) beginCommit(
 			"round", rlc.R,
 			"committing_hash", glog.Hex(vrv.VoteSummary.MostVotedPrecommitHash),
 		)
-		return
+		// Not a failure: the finalize block request is made once the proposed block arrives,
+		// in handleCommitWaitViewUpdate.
+		return true
 	}
 
 	return gchan.SendC(
